@@ -317,7 +317,7 @@ func (a *A) writeEvidence(verifDir string, meta propMeta, t0 time.Time, obligati
 	}
 	sort.Strings(fns)
 	cov := map[string]interface{}{
-		"explanation":         meta.Explanation,
+		"explanation":         strings.TrimSpace(meta.Explanation + " " + explainMore[a.Prop]),
 		"rule":                meta.Rule,
 		"obligations":         obligations,
 		"discharged":          discharged,
